@@ -53,6 +53,14 @@ svc = service("UniversalService", [
         arg("optStr", opt(S), "query", "opt"),
         arg("tail", lst(I), "query", "tail"),
     ]),
+    endpoint("keywords", "GET", "/u/kw/{type}/{match}", [
+        arg("type", I, "path"),
+        arg("match", prim("UUID"), "path"),
+        arg("ref", I, "query", "ref"),
+        arg("loop", opt(B), "query", "loop"),
+        arg("fn", I, "header", "X-Fn"),
+        arg("self", opt(D), "header", "X-Self"),
+    ], returns=I),
     endpoint("headers", "GET", "/u/headers", [
         arg("xStr", S, "header", "X-Str"),
         arg("xOptInt", opt(I), "header", "X-Opt-Int"),
